@@ -300,13 +300,17 @@ func c18SeedEvents() []c18EvCase {
 	for _, v := range []string{"1", "6", "10", "12"} {
 		add(v, "power_levels", 0, func(e *raEv, _ *c18Room) { e.Content = e.Content.with("users", jobj("", jnum(1))) }, nil)
 		add(v, "power_levels", 0, func(e *raEv, _ *c18Room) { e.Content = e.Content.with("users", jobj("@", jnum(1), "@:", jnum(2))) }, nil)
-		add(v, "power_levels", 0, func(e *raEv, _ *c18Room) { e.Content = e.Content.with("ban", jnum(9007199254740991)).with("kick", jnum(-9007199254740991)) }, nil)
+		add(v, "power_levels", 0, func(e *raEv, _ *c18Room) {
+			e.Content = e.Content.with("ban", jnum(9007199254740991)).with("kick", jnum(-9007199254740991))
+		}, nil)
 	}
 	// member events without state key / with odd membership
 	add("4", "member", 1, func(e *raEv, _ *c18Room) { e.StateKey = nil }, nil)
 	add("org.matrix.msc4014", "member", 1, func(e *raEv, _ *c18Room) { e.StateKey = nil }, nil)
 	add("8", "member", 0, func(e *raEv, _ *c18Room) { e.Content = e.Content.with("join_authorised_via_users_server", jstr("@")) }, nil)
-	add("9", "member", 1, func(e *raEv, _ *c18Room) { e.Content = e.Content.with("third_party_invite", jobj("signed", jobj("mxid", jstr(c07Carol), "token", jstr("tok"), "signatures", jobj("id.example", jobj("ed25519:0", jstr("AAAA")))))) }, nil)
+	add("9", "member", 1, func(e *raEv, _ *c18Room) {
+		e.Content = e.Content.with("third_party_invite", jobj("signed", jobj("mxid", jstr(c07Carol), "token", jstr("tok"), "signatures", jobj("id.example", jobj("ed25519:0", jstr("AAAA"))))))
+	}, nil)
 	// power_levels / member events used as auth events without a state key
 	add("2", "power_levels", 0, func(e *raEv, _ *c18Room) { e.StateKey = nil }, nil)
 	add("1", "third_party_invite", 0, func(e *raEv, _ *c18Room) { e.StateKey = nil }, nil)
@@ -349,10 +353,10 @@ func c18SeedEvents() []c18EvCase {
 }
 
 type c18FieldSeed struct {
-	ver, role, flags          uint8
-	content                   string
+	ver, role, flags         uint8
+	content                  string
 	roomID, sender, stateKey string
-	depth                     int64
+	depth                    int64
 }
 
 func c18SeedFields() []c18FieldSeed {
